@@ -1,4 +1,5 @@
 import Swat4.Lemmas.ReporterRefine
+import Swat4.Lemmas.ReporterPost
 import Swat4.Properties.C05
 /-!
 # C04 — A valid heartbeat registers/refreshes the sender and gets the exact reply
@@ -8,6 +9,13 @@ generated `details.Info` schema, use cases `UC.report / renew / remove` run on t
 Spec: `ReporterSpec` (`encodeHeartbeat`, `WfHeartbeat`, `absStep`), written from the property text.
 `Rep.Inv` is the store invariant (rows stored under their own address key, ports in 1..65535); it holds for
 the empty store and is preserved by every datagram (`C05.dispatch_safe`).
+
+The refinement theorems (`heartbeat_refines`, `step_refines`, `history_is_fold`) say "model = `absStep`";
+since `absStep` shares `infoOf`/`atoi`/`ipAccepted`/`toValidUTF8`/`Status.update` with the model, the clause
+"the registry afterwards holds server S:H carrying exactly the reported info values …" is ALSO stated directly:
+`heartbeat_post` (the postcondition field by field, `Rep.HeartbeatPost`), `infoOf_field` / `infoOf_named`
+(every info value is the reading of the value reported under the field's own `param` key) and
+`schema_params_pinned` (the field ↔ key table of the generated schema against a literal list written here).
 -/
 namespace Swat4.C04
 open Swat4 Swat4.Heartbeat Swat4.ReporterSpec Swat4.Rep Std
@@ -417,6 +425,305 @@ theorem history_is_fold (cfg : Cfg) (es : List Event) :
       rw [← hs]; exact hi
     have := ih _ hi' (fun e' he' => hwf e' (List.mem_cons_of_mem _ he'))
     simpa [runHistory] using this
+
+
+/-! ## the postcondition of an accepted heartbeat, stated directly
+
+`Rep.HeartbeatPost cfg st st' a id info localport now` (Lemmas/ReporterPost.lean) says, with the actual field names:
+* `server`: `st'.servers[a.key]? = some row` with `row.svr.addr = a`, `row.svr.info = info`,
+  `row.svr.refreshedAt = some now`, `row.updatedAt = now`, `row.svr.status` has `master` and `info` and not `new`;
+  `queryPort`, `details` and every status bit other than `new|master|info|port_retry` are those of the previous
+  record (for a new server: `queryPort = localport ∈ 1..65535`, zero details, no other bit);
+  and EITHER the previous record had one of `port`/`port_retry` (then `st'.queue = st.queue`, `nextId` unchanged,
+  version + 1) OR `st'.queue = st.queue ++ [⟨st.nextId, ⟨a, a.port, .port, 0, cfg.maxRetries⟩, now, none⟩]`
+  (ready = now, no expiry, as `maybeDiscoverPort` enqueues it) and `port_retry` is set;
+* `instance_bound`: `st'.instances[id]? = some (a, now)`;
+* `other_servers` / `other_instances`: every other server row and every other instance entry is unchanged. -/
+
+/-- **Postcondition of an accepted heartbeat (abstract step).** C04 clause "the registry afterwards holds server
+S:H carrying exactly the reported info values, marked as reported-to-master with info, refreshed at the current
+time, with the instance id bound to S:H, and a query-port discovery is pending unless the port is already known
+or being discovered".  Whenever `absStep` answers heartbeat `d` from `ip:port` at `now` in a state satisfying the
+store invariant: `hostport` and `localport` are the `Atoi` readings of the reported fields, `hostport ∈ 1..65535`,
+`info` is the reading of the reported values (`infoOf`, pinned field by field by `infoOf_field`), the reply is the
+28 bytes, and `HeartbeatPost` holds between the state before and after for address `(ip, hostport)`. -/
+theorem heartbeat_post_abs (cfg : Cfg) (st : AbsState) (hinv : Inv st) (d : Hb) (ip port : Nat) (now : Int) (r : Bytes)
+    (hacc : (absStep cfg st ip port (.heartbeat d) now).2 = some r) :
+    ∃ (hostport localport : Int) (info : Fields),
+      ((fieldsOf d.kvs).get? kHostport).bind atoi = some hostport ∧
+      ((fieldsOf d.kvs).get? kLocalport).bind atoi = some localport ∧
+      infoOf (fieldsOf d.kvs) = some info ∧
+      1 ≤ hostport ∧ hostport ≤ 65535 ∧ r = replyBytes d.id ip port ∧
+      HeartbeatPost cfg st (absStep cfg st ip port (.heartbeat d) now).1 ⟨ip, hostport⟩ (idNat d.id) info localport now := by
+  obtain ⟨hostport, localport, info, base, h1, h2, h3, h4, _, _, h7, h8, h9, h10⟩ :=
+    absStep_heartbeat_accept cfg st d ip port now r hacc
+  refine ⟨hostport, localport, info, h1, h2, h7, h3, h4, h9, ?_⟩
+  rw [h10]
+  exact acceptedState_post cfg st hinv ⟨ip, hostport⟩ ⟨h3, h4⟩ (idNat d.id) base info localport now h8
+
+/-- **Postcondition of an accepted heartbeat (model of the code).** The same statement for the dispatcher:
+whenever `Heartbeat.dispatch` answers the datagram of a well-formed heartbeat `d` (outcome `reply r`), the
+registry, the instance table and the probe queue afterwards satisfy `HeartbeatPost` (see above) for the address
+`(source IP, reported hostport)`, the presented instance id and the reported info. -/
+theorem heartbeat_post (cfg : Cfg) (st : AbsState) (hinv : Inv st) (d : Hb) (hwf : WfHeartbeat d) (ip port : Nat) (now : Int)
+    (r : Bytes) (hacc : (dispatch cfg st ip port (encodeHeartbeat d) now).2 = .reply r) :
+    ∃ (hostport localport : Int) (info : Fields),
+      ((fieldsOf d.kvs).get? kHostport).bind atoi = some hostport ∧
+      ((fieldsOf d.kvs).get? kLocalport).bind atoi = some localport ∧
+      infoOf (fieldsOf d.kvs) = some info ∧
+      1 ≤ hostport ∧ hostport ≤ 65535 ∧ r = replyBytes d.id ip port ∧
+      HeartbeatPost cfg st (dispatch cfg st ip port (encodeHeartbeat d) now).1 ⟨ip, hostport⟩ (idNat d.id) info localport now := by
+  have href := heartbeat_refines cfg st hinv d hwf ip port now
+  have h2 : (absStep cfg st ip port (.heartbeat d) now).2 = some r := by
+    rw [← href.2.1, hacc]; rfl
+  rw [href.1]
+  exact heartbeat_post_abs cfg st hinv d ip port now r h2
+
+/-! ## the reported info, field by field -/
+
+/-- how a reported value is read into a struct field of a kind, written out from the property text:
+int (kind 0) by `strconv.Atoi`, bool (kind 1) from `1/true/0/false`, string (kind 2) the bytes themselves;
+an absent key gives the zero value -/
+def reading (kind : Nat) (x : Option Bytes) : Option Val :=
+  match kind, x with
+  | 0, none => some (.int 0)
+  | 0, some b => (atoi b).map .int
+  | 1, none => some (.bool false)
+  | 1, some b => (parseBool b).map .bool
+  | 2, none => some (.str [])
+  | 2, some b => some (.str b)
+  | _, _ => none
+
+theorem unmarshalEntry_reading (m : FieldMap) (name : String) (key : Option Bytes) (kind : Nat) (tags : List String) :
+    unmarshalEntry m (name, key, kind, tags) = reading kind (key.bind m.get?) := by
+  unfold unmarshalEntry
+  cases key with
+  | none =>
+    dsimp only [Option.bind_none]
+    match kind with
+    | 0 | 1 | 2 => rfl
+    | k + 3 => simp [zeroVal, reading]
+  | some k =>
+    dsimp only [Option.bind_some]
+    cases m.get? k with
+    | none =>
+      dsimp only
+      match kind with
+      | 0 | 1 | 2 => rfl
+      | k + 3 => simp [zeroVal, reading]
+    | some v =>
+      dsimp only
+      match kind with
+      | 0 | 1 | 2 => rfl
+      | k + 3 => simp [parseVal, reading]
+
+/-- **Exactly the reported values, position by position.** C04 clause "carrying exactly the reported info
+values".  If `infoOf f = some i` then for every entry `(name, key, kind, _)` at position `n` of the generated
+`Facts.reporterInfoSchema` the `n`-th value of `i` exists and is the `reading` by `kind` of `f.get? key` (string:
+the bytes themselves; int: `atoi`; bool: `parseBool`; zero value when the key is absent or the field has no
+`param` key).  Proved through the defining equations of `infoOf`/`unmarshal` only. -/
+theorem infoOf_field (f : FieldMap) (i : Fields) (h : infoOf f = some i) (n : Nat) (name : String) (key : Option Bytes)
+    (kind : Nat) (tags : List String) (hs : Facts.reporterInfoSchema[n]? = some (name, key, kind, tags)) :
+    i[n]? = reading kind (key.bind f.get?) ∧ (i[n]?).isSome = true := by
+  have hu := infoOf_unmarshal h
+  have h1 := unmarshal_getElem? schema f i hu n
+  have h2 := unmarshal_length schema f i hu
+  have hs' : schema[n]? = some (name, key, kind, tags) := hs
+  rw [hs'] at h1
+  rw [Option.bind_some, unmarshalEntry_reading] at h1
+  refine ⟨h1, ?_⟩
+  have hn : n < schema.length := by
+    rcases Nat.lt_or_ge n schema.length with h | h
+    · exact h
+    · rw [List.getElem?_eq_none h] at hs'; cases hs'
+  rw [List.getElem?_eq_getElem (by omega)]
+  rfl
+
+/-- the fields of `details.Info` a player sees, written here from `internal/core/entities/details/info.go`
+(Go field, `param` key — the lower-cased field name unless a `param:"…"` tag says otherwise —, kind):
+NOT derived from the generated schema -/
+def infoParams : List (String × String × Nat) :=
+  [("Hostname", "hostname", 2), ("HostPort", "hostport", 0), ("GameVariant", "gamevariant", 2), ("GameVersion", "gamever", 2),
+   ("GameType", "gametype", 2), ("NumPlayers", "numplayers", 0), ("MaxPlayers", "maxplayers", 0), ("MapName", "mapname", 2),
+   ("Password", "password", 1), ("StatsEnabled", "statsenabled", 1), ("Round", "round", 0), ("NumRounds", "numrounds", 0),
+   ("TimeLeft", "timeleft", 0), ("TimeSpecial", "timespecial", 0), ("SwatScore", "swatscore", 0), ("SuspectsScore", "suspectsscore", 0),
+   ("SwatWon", "swatwon", 0), ("SuspectsWon", "suspectswon", 0), ("BombsDefused", "bombsdefused", 0), ("BombsTotal", "bombstotal", 0),
+   ("TocReports", "tocreports", 2), ("WeaponsSecured", "weaponssecured", 2)]
+
+/-- **The field ↔ key table is the expected one.** The generated schema (reflection over the real `details.Info`)
+maps every Go field to the key of the literal list above, in the same order, followed by the key-less `Version`:
+a swapped or renamed `param` tag in Go (say `numplayers` ↔ `maxplayers`) changes the regenerated fact and breaks
+this theorem. -/
+theorem schema_params_pinned :
+    Facts.reporterInfoSchema.map (fun e => (e.1, e.2.1, e.2.2.1))
+      = infoParams.map (fun e => (e.1, some (ascii e.2.1), e.2.2)) ++ [("Version", none, 2)] := by
+  decide
+
+/-- the value of the Go field `goField` in an info value list -/
+def infoField (i : Fields) (goField : String) : Option Val :=
+  (Facts.reporterInfoSchema.findIdx? fun e => e.1 == goField).bind (i[·]?)
+
+theorem infoParams_index :
+    (infoParams.all fun e =>
+      match Facts.reporterInfoSchema.findIdx? (fun x => x.1 == e.1) with
+      | some n => (Facts.reporterInfoSchema[n]?.map fun x => (x.2.1, x.2.2.1)) == some (some (ascii e.2.1), e.2.2)
+      | none => false) = true := by
+  decide
+
+/-- **Exactly the reported values, by name.** If `infoOf f = some i` then for every `(Go field, key, kind)` of the
+literal list `infoParams` the value of that field in `i` exists and is the `reading` by `kind` of what was
+reported under `key`: `Hostname` is the bytes reported as `hostname`, `NumPlayers` is `Atoi` of `numplayers`,
+`MaxPlayers` of `maxplayers`, `GameVersion` the bytes of `gamever`, `HostPort` `Atoi` of `hostport`, … -/
+theorem infoOf_named (f : FieldMap) (i : Fields) (h : infoOf f = some i) (goField param : String) (kind : Nat)
+    (he : (goField, param, kind) ∈ infoParams) :
+    infoField i goField = reading kind (f.get? (ascii param)) ∧ (infoField i goField).isSome = true := by
+  have hall := List.all_eq_true.mp infoParams_index _ he
+  dsimp only at hall
+  unfold infoField
+  cases hfi : Facts.reporterInfoSchema.findIdx? (fun x => x.1 == goField) with
+  | none => rw [hfi] at hall; cases hall
+  | some n =>
+    rw [hfi] at hall
+    dsimp only at hall
+    cases hsn : Facts.reporterInfoSchema[n]? with
+    | none => rw [hsn] at hall; cases hall
+    | some x =>
+      rw [hsn] at hall
+      obtain ⟨name, key, kind', tags⟩ := x
+      simp only [Option.map_some, beq_iff_eq, Option.some.injEq, Prod.mk.injEq] at hall
+      obtain ⟨hk, hkind⟩ := hall
+      subst hk hkind
+      exact infoOf_field f i h n name _ _ tags hsn
+
+/-! ## non-vacuity: a concrete heartbeat is accepted -/
+
+/-- a well-formed first report: instance id `de ad be ef`, ten reportable pairs -/
+def sampleHb : Hb := ⟨[0xde, 0xad, 0xbe, 0xef],
+  [(ascii "hostname", ascii "Srv"), (ascii "hostport", ascii "10480"), (ascii "localport", ascii "10481"),
+   (ascii "gamevariant", ascii "SWAT 4"), (ascii "gamever", ascii "1.1"), (ascii "gametype", ascii "VIP Escort"),
+   (ascii "mapname", ascii "A-Bomb Nightclub"), (ascii "numplayers", ascii "3"), (ascii "maxplayers", ascii "16"),
+   (ascii "password", ascii "1")], []⟩
+
+/-- the state after `sampleHb` arrives from 1.1.1.1:1234 at clock 1000 in the empty store (3 probe retries) -/
+def sampleState : AbsState := (dispatch ⟨3⟩ {} 0x01010101 1234 (encodeHeartbeat sampleHb) 1000).1
+
+def sampleRow : Option SRow := sampleState.servers[(⟨0x01010101, 10480⟩ : Addr).key]?
+
+example : WfHeartbeat sampleHb := by decide
+
+set_option maxRecDepth 20000 in
+/-- **Non-vacuity.** The model ACCEPTS `sampleHb` from the empty state: it is answered with the 28 bytes and the
+state afterwards has exactly one server (1.1.1.1:10480, query port 10481, status `master|info|port_retry`,
+refreshed and written at 1000, version 2, carrying the reported values — `NumPlayers` 3 and `MaxPlayers` 16 not
+swapped), exactly one instance (bound to that address at 1000) and exactly one queued port probe. -/
+example :
+    (dispatch ⟨3⟩ {} 0x01010101 1234 (encodeHeartbeat sampleHb) 1000).2 = .reply (replyBytes sampleHb.id 0x01010101 1234)
+    ∧ sampleState.servers.size = 1
+    ∧ sampleState.instances.size = 1
+    ∧ sampleState.instances[idNat sampleHb.id]? = some (⟨0x01010101, 10480⟩, 1000)
+    ∧ sampleState.queue = [⟨0, ⟨⟨0x01010101, 10480⟩, 10480, .port, 0, 3⟩, 1000, none⟩]
+    ∧ sampleState.nextId = 1
+    ∧ sampleRow.map (fun row => (row.svr.addr, row.svr.queryPort, row.svr.status))
+        = some (⟨0x01010101, 10480⟩, 10481, Status.master ||| Status.info ||| Status.portRetry)
+    ∧ sampleRow.map (fun row => (row.svr.refreshedAt, row.svr.version, row.updatedAt)) = some (some 1000, 2, 1000)
+    ∧ sampleRow.map (fun row => (infoField row.svr.info "Hostname", infoField row.svr.info "GameVersion"))
+        = some (some (.str (ascii "Srv")), some (.str (ascii "1.1")))
+    ∧ sampleRow.map (fun row => (infoField row.svr.info "NumPlayers", infoField row.svr.info "MaxPlayers", infoField row.svr.info "HostPort"))
+        = some (some (.int 3), some (.int 16), some (.int 10480))
+    ∧ sampleRow.map (fun row => infoField row.svr.info "Password") = some (some (.bool true)) := by
+  refine ⟨?_, ?_, ?_, ?_, ?_, ?_, ?_, ?_, ?_, ?_, ?_⟩ <;> decide
+
+set_option maxRecDepth 20000 in
+/-- the hypotheses of `heartbeat_post` are jointly satisfiable: the empty store has the invariant, `sampleHb` is
+well-formed and is answered -/
+example : ∃ hostport localport info,
+    HeartbeatPost ⟨3⟩ {} sampleState ⟨0x01010101, hostport⟩ (idNat sampleHb.id) info localport 1000 := by
+  obtain ⟨hp, lp, info, _, _, _, _, _, _, h⟩ :=
+    heartbeat_post ⟨3⟩ {} inv_empty sampleHb (by decide) 0x01010101 1234 1000 (replyBytes sampleHb.id 0x01010101 1234) (by decide)
+  exact ⟨hp, lp, info, h⟩
+
+set_option maxRecDepth 20000 in
+/-- the hypothesis of `heartbeat_post_abs` is satisfiable: the abstract step answers `sampleHb` -/
+example : (absStep ⟨3⟩ {} 0x01010101 1234 (.heartbeat sampleHb) 1000).2 = some (replyBytes sampleHb.id 0x01010101 1234) := by decide
+
+/-- the hypotheses of `infoOf_field` are satisfiable: position 5 of the schema is `NumPlayers`, read from `numplayers` -/
+example : ∃ i, infoOf (fieldsOf sampleHb.kvs) = some i ∧ i[5]? = some (.int 3) := by
+  cases h : infoOf (fieldsOf sampleHb.kvs) with
+  | none => exact absurd h (by decide)
+  | some i =>
+    refine ⟨i, rfl, ?_⟩
+    rw [(infoOf_field _ i h 5 "NumPlayers" (some (ascii "numplayers")) 0 ["gte=0"] (by decide)).1]
+    decide
+
+/-- the hypothesis of `infoOf_named` is satisfiable and the conclusion tells `numplayers` from `maxplayers` -/
+example : ∃ i, infoOf (fieldsOf sampleHb.kvs) = some i ∧
+    infoField i "NumPlayers" = some (.int 3) ∧ infoField i "MaxPlayers" = some (.int 16) := by
+  cases h : infoOf (fieldsOf sampleHb.kvs) with
+  | none => exact absurd h (by decide)
+  | some i =>
+    refine ⟨i, rfl, ?_, ?_⟩
+    · rw [(infoOf_named _ i h "NumPlayers" "numplayers" 0 (by decide)).1]; decide
+    · rw [(infoOf_named _ i h "MaxPlayers" "maxplayers" 0 (by decide)).1]; decide
+
+/-- **Postcondition of an owner's removal.** C04 clause "a heartbeat with statechanged=2 from the owner removes
+server and instance without a reply", stated directly.  For a well-formed heartbeat carrying `statechanged=2`
+whose `hostport`/`localport` read as numbers, `hostport ∈ 1..65535`, from an acceptable source IP: if the server
+`(ip, hostport)` exists and the presented instance id is bound to an address of the SAME IP, then afterwards
+`servers[(ip, hostport)]` and `instances[id]` are absent, every other server and instance entry is unchanged, the
+probe queue is untouched and nothing is sent. -/
+theorem removal_post (cfg : Cfg) (st : AbsState) (hinv : Inv st) (d : Hb) (hwf : WfHeartbeat d) (ip port : Nat) (now : Int)
+    (hostport localport : Int)
+    (h1 : ((fieldsOf d.kvs).get? kHostport).bind atoi = some hostport)
+    (h2 : ((fieldsOf d.kvs).get? kLocalport).bind atoi = some localport)
+    (hlo : 1 ≤ hostport) (hhi : hostport ≤ 65535) (hip : ipAccepted ip = true)
+    (hs : (fieldsOf d.kvs).get? kStatechanged = some [0x32])
+    (row : SRow) (hrow : st.servers[(⟨ip, hostport⟩ : Addr).key]? = some row)
+    (ia : Addr) (t : Int) (hb : st.instances[idNat d.id]? = some (ia, t)) (hown : ia.ip = ip) :
+    let st' := (dispatch cfg st ip port (encodeHeartbeat d) now).1
+    st'.servers[(⟨ip, hostport⟩ : Addr).key]? = none ∧ st'.instances[idNat d.id]? = none ∧
+    (∀ k : Nat, k ≠ (⟨ip, hostport⟩ : Addr).key → st'.servers[k]? = st.servers[k]?) ∧
+    (∀ j : Nat, j ≠ idNat d.id → st'.instances[j]? = st.instances[j]?) ∧
+    st'.queue = st.queue ∧ st'.nextId = st.nextId ∧
+    replyOf (dispatch cfg st ip port (encodeHeartbeat d) now).2 = none := by
+  intro st'
+  have href := heartbeat_refines cfg st hinv d hwf ip port now
+  have hst : st' = { st with servers := st.servers.erase (⟨ip, hostport⟩ : Addr).key, instances := st.instances.erase (idNat d.id) } := by
+    show (dispatch cfg st ip port (encodeHeartbeat d) now).1 = _
+    rw [href.1]
+    unfold absStep
+    simp only [h1, h2]
+    have hn : ¬ (hostport < 1 ∨ hostport > 65535 ∨ (!ipAccepted ip) = true) := by
+      rw [hip]; simp; omega
+    rw [if_neg hn]
+    simp only [hs, if_true, hrow, hb]
+    rw [if_neg (by simp [hown])]
+  refine ⟨?_, ?_, ?_, ?_, ?_, ?_, removal_silent cfg st hinv d hwf hs ip port now⟩
+  · rw [hst]; simp
+  · rw [hst]; simp
+  · intro k hk
+    rw [hst]
+    simp only [ExtTreeMap.getElem?_erase, Nat.compare_eq_eq]
+    rw [if_neg (Ne.symm hk)]
+  · intro j hj
+    rw [hst]
+    simp only [ExtTreeMap.getElem?_erase, Nat.compare_eq_eq]
+    rw [if_neg (Ne.symm hj)]
+  · rw [hst]
+  · rw [hst]
+
+/-- the removal of `sampleHb`'s server by its owner -/
+def sampleRemoval : Hb := ⟨sampleHb.id,
+  [(ascii "hostport", ascii "10480"), (ascii "localport", ascii "10481"), (ascii "statechanged", ascii "2")], []⟩
+
+set_option maxRecDepth 20000 in
+/-- the hypotheses of `removal_post` are jointly satisfiable (state: `sampleState`, the owner 1.1.1.1 removes) and
+the server is indeed gone -/
+example : (dispatch ⟨3⟩ sampleState 0x01010101 1234 (encodeHeartbeat sampleRemoval) 2024).1.servers[(⟨0x01010101, 10480⟩ : Addr).key]? = none :=
+  (removal_post ⟨3⟩ sampleState (C05.dispatch_safe ⟨3⟩ {} 0x01010101 1234 _ 1000 inv_empty).1 sampleRemoval (by decide)
+    0x01010101 1234 2024 10480 10481 (by decide) (by decide) (by decide) (by decide) (by decide) (by decide)
+    ⟨⟨⟨0x01010101, 10480⟩, 10481, Status.master ||| Status.info ||| Status.portRetry,
+        (sampleRow.map (·.svr.info)).getD [], ⟨zeroInfo, [], []⟩, some 1000, 2⟩, 1000⟩ (by decide)
+    ⟨0x01010101, 10480⟩ 1000 (by decide) rfl).1
 
 /-- non-vacuity: a concrete well-formed heartbeat with an unknown pair and invalid UTF-8 in a value -/
 example : WfHeartbeat ⟨[0xde, 0xad, 0xbe, 0xef],
